@@ -163,11 +163,11 @@ def oracle_det(c, r):
         g = r["got"].get(k)
         if k == "scores" and isinstance(v, list):
             sc = 1.0 + max((abs(t) for t in v), default=0.0)
-            if not isinstance(g, list) or len(g) != len(v) or any(abs(a - b) > 1e-9 * sc for a, b in zip(g, v)):
+            if not isinstance(g, list) or len(g) != len(v) or any(not abs(a - b) <= 1e-9 * sc for a, b in zip(g, v)):
                 return f"{describe(c)}: scores differ from the float DataFrame / default index run"
             continue
         if k == "fitted":
-            if any(abs(v[a] - g.get(a, float("nan"))) > 1e-9 * (1 + abs(v[a])) for a in v):
+            if any(not abs(v[a] - g.get(a, float("nan"))) <= 1e-9 * (1 + abs(v[a])) for a in v):
                 return f"{describe(c)}: fitted values {g} differ from those for the float DataFrame / default index {v}"
         elif g != v:
             return f"{describe(c)}: {k} output differs from the float DataFrame / default index run"
